@@ -60,6 +60,13 @@ Lemma send_step : forall cf st l st',
         exists from q cm again op rest,
           wst st w = WRun from q cm again (op :: rest) /\ head_msg op = Some (r, m) /\
           (forall w', w' <> w -> wst st' w' = wst st w') /\
+          calls st' = (match op with
+                       | OSimple (SReply _ m') => erase (cid_of m') (calls st)
+                       | OTry _ m' eo ef _ =>
+                           if (if ok then eo else ef) then erase (cid_of m') (calls st)
+                           else calls st
+                       | _ => calls st
+                       end) /\
           exists rest', wst st' w = WRun from q cm again rest' /\
             (match op with OTry _ _ _ _ onf => (ok = true /\ rest' = rest) \/
                                                (ok = false /\ rest' = map OSimple onf ++ rest)
@@ -75,6 +82,11 @@ Proof.
   all: try (exists r, m0; eexists; exists (ByWorker w); repeat split; auto;
             exists from, q, m, again; eexists; eexists; repeat split; eauto;
             [intros w' Hw'; rewrite updw_other; auto
+            |eexists; rewrite updw_same; split; [reflexivity|]; auto]; fail).
+  all: try (exists r, m0; eexists; exists (ByWorker w); repeat split; auto;
+            exists from, q, m, again; eexists; eexists; repeat split; eauto;
+            [intros w' Hw'; rewrite updw_other; auto
+            |simpl; match goal with |- context [if ?b then _ else _] => destruct b end; reflexivity
             |eexists; rewrite updw_same; split; [reflexivity|]; auto]; fail).
   all: match goal with E : hst _ ?s = HPost (?m :: ?tl) |- _ =>
          exists s, m; eexists; exists ByHandler; repeat split; auto; exists tl; split; auto end.
